@@ -159,7 +159,18 @@ impl Monitor for C05 {
 
 /// covenants of different weight classes that a transaction can carry in addition to those it needs
 fn extra_covenant(r: &mut Rng) -> Vec<u8> {
-    match r.below(6) {
+    match r.below(7) {
+        6 => {
+            // nested loops whose weight exceeds any 128-bit number (the weigher saturates): listing it next to
+            // anything else must make the transaction unpayable, not cheap
+            let k = 9 + r.usize(4);
+            let mut v = vec![];
+            for i in 0..k {
+                v.push(Op::Loop(65535, (k - i) as u16));
+            }
+            v.push(Op::Noop);
+            refvm::encode(&v).unwrap()
+        }
         0 => r.bytes(r.clone().usize(40) + 1),                                   // most likely undecodable -> weight 0
         1 => refvm::encode(&[Op::Loop(1000, 3), Op::Hash(500), Op::Noop, Op::Mul]).unwrap(), // heavy loop
         2 => refvm::encode(&[Op::Loop(3, 4), Op::Loop(65535, 2), Op::SigEOk(65535), Op::Noop, Op::Dup]).unwrap(),
@@ -202,7 +213,7 @@ pub fn run(p: &Params) -> Report {
     let mine = p.share(total);
     let mut rng = Rng::new(p.shard_seed() ^ 0xC05);
     let mut mon = C05 { rep: Report::new("C05"), case_seed: 0 };
-    mon.rep.rule = "cases = (a) every batch and sealed block of random histories at multipliers {0,1,2,100,10^6,2^40,2^64,2^100}; (b) threshold probes: a valid transaction (0-8 inputs, 1-60 outputs, extra covenants of every weight class incl. heavy loops and undecodable bytes) is re-targeted by fixpoint to pay exactly min-1, min, min+k and applied to a clone. Oracle: reference weight (serialized size + reference covenant weights + 1000/output - 1000/input, floored at 0) and min = floor(weight*multiplier/65536) in big integers; accepted => fee >= min; fee < min => rejected; fee pool grows by exactly sum(min) and tips by sum(fee-min); with an action the reward coin is pool>>16 + tips to the destination at the current height and pool/tips are debited by exactly that; without an action nothing moves. Non-trivial = multiplier > 0 (batches), tips > 0 (rewards), every threshold probe; distinct by members/values".into();
+    mon.rep.rule = "cases = (a) every batch and sealed block of random histories at multipliers {0,1,2,100,10^6,2^40,2^64,2^100}; (b) threshold probes: a valid transaction (0-8 inputs, 1-60 outputs, extra covenants of every weight class incl. heavy loops, loops whose weight exceeds 2^128 and undecodable bytes) is re-targeted by fixpoint to pay exactly min-1, min, min+k (and once left with the fee it was generated with) and applied to a clone. Oracle: reference weight (serialized size + reference covenant weights + 1000/output - 1000/input, floored at 0) and min = floor(weight*multiplier/65536) in big integers; accepted => fee >= min; fee < min => rejected; fee pool grows by exactly sum(min) and tips by sum(fee-min); with an action the reward coin is pool>>16 + tips to the destination at the current height and pool/tips are debited by exactly that; without an action nothing moves. Non-trivial = multiplier > 0 (batches), tips > 0 (rewards), every threshold probe; distinct by members/values".into();
     if p.only_case.is_none() {
         mon.rep.require("threshold probes: min-1 rejected", p.n(150, 3000));
         mon.rep.require("threshold probes: exactly min accepted", p.n(150, 3000));
@@ -252,9 +263,16 @@ pub fn run(p: &Params) -> Report {
                     for _ in 0..r.usize(3) {
                         tx.covenants.push(Bytes::from(extra_covenant(&mut r)));
                     }
-                    for (over, name) in [(-1i128, "min-1"), (0, "exactly min"), (1 + r.below(1000) as i128, "min+k")] {
+                    for (over, name) in [(-1i128, "min-1"), (0, "exactly min"), (1 + r.below(1000) as i128, "min+k"), (i128::MIN, "fee as generated")] {
                         let mut t = tx.clone();
-                        if retarget(&w, &mut t, cur_mult, over).is_none() {
+                        if over == i128::MIN {
+                            // no re-targeting (the minimum may be unpayable): just re-sign with the extra covenants
+                            let inputs: Vec<(CoinID, CoinDataHeight)> = t.inputs.iter().filter_map(|i| w.utxo.get(i).map(|c| (*i, c.clone()))).collect();
+                            if inputs.len() != t.inputs.len() {
+                                continue;
+                            }
+                            w.sign(&mut t, &inputs);
+                        } else if retarget(&w, &mut t, cur_mult, over).is_none() {
                             continue;
                         }
                         let min = ref_min_fee(&t, cur_mult);
